@@ -19,8 +19,8 @@ N_ENUM = 64          # members of the StrEnum used for enum-styled tags
 
 PREAMBLE = """
 from dataclasses import dataclass, field
-from enum import StrEnum
-from typing import Annotated, ClassVar, Final, List, Literal, Optional, Union
+from enum import IntEnum, StrEnum
+from typing import Annotated, Any, ClassVar, Final, List, Literal, Optional, Union
 from mashumaro import DataClassDictMixin
 from mashumaro.config import ADD_DIALECT_SUPPORT, BaseConfig
 from mashumaro.dialect import Dialect
@@ -35,6 +35,10 @@ class D2(Dialect):
 
 E = StrEnum("E", {f"T{i}": f"t{i}" for i in range(%d)})
 E.__module__ = __name__
+IE = IntEnum("IE", {"Z0": 0, "Z1": 1, "Z2": 2})
+IE.__module__ = __name__
+SE = StrEnum("SE", {"EMPTY": "", "T": "t"})
+SE.__module__ = __name__
 TAGS = {}
 
 def tagger(cls):
@@ -46,21 +50,58 @@ def tagger(cls):
 # tag rendering
 # ---------------------------------------------------------------------------
 
-def tag_value(style: str, k: int):
-    """Python value of abstract tag k as it appears in the *input* (always JSON-able)."""
-    if style == "str" or style == "enum":
-        return f"t{k}"
-    if style == "int":
-        return 100 + k
-    return f"t{k}" if k % 2 == 0 else 100 + k          # mixed
+NOJSON = object()      # spelling usable as a class attribute / tagger result only (enum members)
+
+# The tag VALUE spectrum.  One entry = one abstract tag (a class of Python values that are == and hash-equal, i.e. the
+# same dict key for the registry); its spellings = (source, source of its type, JSON-able input value | NOJSON).
+# Different entries are never ==.  Falsy values, None as a value (key present!), bool/int/float/IntEnum collisions,
+# strings that merely look falsy.
+SPECIAL = [
+    [("0", "int", 0), ("False", "bool", False), ("0.0", "float", 0.0), ("IE.Z0", "IE", NOJSON)],
+    [("1", "int", 1), ("True", "bool", True), ("1.0", "float", 1.0), ("IE.Z1", "IE", NOJSON)],
+    [("''", "str", ""), ("SE.EMPTY", "SE", NOJSON)],
+    [("None", "None", None)],
+    [("'0'", "str", "0")],
+    [("-1", "int", -1), ("-1.0", "float", -1.0)],
+    [("'t'", "str", "t"), ("SE.T", "SE", NOJSON)],
+    [("2", "int", 2), ("2.0", "float", 2.0), ("IE.Z2", "IE", NOJSON)],
+    [("'False'", "str", "False")],
+    [("' '", "str", " ")],
+]
 
 
-def tag_src(style: str, k: int, attr: bool) -> tuple[str, str]:
-    """(source of the value, source of its type) for a class attribute / tagger result."""
-    if style == "enum" and attr:
-        return f"E.T{k}", "E"
-    v = tag_value(style, k)
-    return repr(v), type(v).__name__
+def spellings(style: str, k: int) -> list:
+    """all spellings of abstract tag k under a style; style 'spectrum:<perm>' maps the first ids onto SPECIAL"""
+    if style.startswith("spectrum:"):
+        perm = [int(x) for x in style.split(":")[1].split(",")]
+        if k < len(perm):
+            return SPECIAL[perm[k]]
+        v = f"t{k}" if k % 2 == 0 else 100 + k
+        return [(repr(v), type(v).__name__, v)]
+    if style == "str":
+        v = f"t{k}"
+    elif style == "enum":
+        return [(f"E.T{k}", "E", NOJSON), (repr(f"t{k}"), "str", f"t{k}")]
+    elif style == "int":
+        v = 100 + k
+    else:
+        v = f"t{k}" if k % 2 == 0 else 100 + k          # mixed
+    return [(repr(v), type(v).__name__, v)]
+
+
+def tag_value(style: str, k: int, j: int = 0):
+    """Python value of abstract tag k as it appears in the *input* (always JSON-able): the j-th JSON-able spelling"""
+    vals = [sp[2] for sp in spellings(style, k) if sp[2] is not NOJSON]
+    return vals[j % len(vals)]
+
+
+def tag_src(style: str, k: int, attr: bool, j: int = 0) -> tuple[str, str]:
+    """(source of the value, source of its type) for a class attribute / tagger result: the j-th spelling"""
+    sps = spellings(style, k)
+    if style == "enum" and not attr:
+        sps = sps[1:]                 # the tagger of an enum-styled history returns the plain strings
+    sp = sps[j % len(sps)]
+    return sp[0], sp[1]
 
 
 # ---------------------------------------------------------------------------
@@ -103,8 +144,10 @@ def class_src(c: dict, style: str, kind: str) -> str:
     body = []
     if kind == "field":
         if c["own_tag"] is not None:
-            v, t = tag_src(style, c["own_tag"], True)
+            v, t = tag_src(style, c["own_tag"], True, c.get("own_j", 0))
             d = c["decl"]
+            if style.startswith("spectrum:") and d in ("field", "final", "classvar"):
+                t = "Any"             # the spellings of one tag have different types
             if d == "field":
                 body.append(f"{FIELD}: {t} = {v}")
             elif d == "classvar":
@@ -131,7 +174,7 @@ def class_src(c: dict, style: str, kind: str) -> str:
         body.append("pass")
     src = "\n".join(lines + ["    " + b for b in body]) + "\n"
     if c["ttags"] is not None:
-        vals = [tag_src(style, k, False)[0] for k in c["ttags"]]
+        vals = [tag_src(style, k, False, j)[0] for k, j in zip(c["ttags"], c.get("ttag_js") or [0] * len(c["ttags"]))]
         if c["ttag_bare"] and len(vals) == 1:
             src += f"TAGS['C{c['id']}'] = {vals[0]}\n"
         else:
@@ -171,6 +214,12 @@ def gen_history(rng, stream: str = "main", max_ops: int = 40) -> Hist:
     else:
         kind = "field" if rng.random() < 0.72 else "nofield"
     style = rng.choice(["str", "int", "enum", "mixed"])
+    if kind == "field" and rng.random() < 0.4:
+        # the tag VALUE spectrum: the first abstract ids are falsy values, None, bool/int/float/enum collisions, ...
+        perm = list(range(len(SPECIAL)))
+        rng.shuffle(perm)
+        style = "spectrum:" + ",".join(map(str, perm[:rng.randint(3, len(SPECIAL))]))
+    spectrum = style.startswith("spectrum:")
     unique = rng.random() < 0.75
     # a variant validates its own `type` field: tagger tags differ from the attribute, and a non-field declaration
     # below a field declaration inherits the ancestor's annotation -> one declaration family per history
@@ -178,7 +227,11 @@ def gen_history(rng, stream: str = "main", max_ops: int = 40) -> Hist:
     # call-time dialects (class-level wiring only, unique tags only: with duplicate tags a registry hit on a class that
     # lacks the dialect's method triggers a refill - compiled-method state is not part of the model)
     use_dialects = unique and rng.random() < 0.3
-    decls = ["classvar", "plain"] if (use_tagger or rng.random() < 0.35) else ["field", "literal", "final"]
+    nonfield = use_tagger or rng.random() < (0.55 if spectrum else 0.35)
+    decls = ["classvar", "plain"] if nonfield else (["field", "literal"] if spectrum else ["field", "literal", "final"])
+    # a Literal/typed `type` field validates the spelling it gets: only histories whose classes declare the tag as a
+    # non-field attribute (or use the tagger) mix the ==-equal spellings of one tag (False/0/0.0/IE.Z0, ''/SE.EMPTY ...)
+    free_spelling = spectrum and nonfield
     length = rng.randint(6, max_ops)
     classes: list[dict] = []
     mirror: list = []
@@ -236,7 +289,10 @@ def gen_history(rng, stream: str = "main", max_ops: int = 40) -> Hist:
             for _ in range(n):
                 own_req.append(next_field[0])
                 next_field[0] += 1
+        own_j = rng.randrange(8) if free_spelling else 0
+        ttag_js = [rng.randrange(8) if free_spelling else 0 for _ in (ttags or [])]
         c = {"id": cid, "parents": parents, "own_tag": own_tag, "ttags": ttags, "ttag_bare": rng.random() < 0.5,
+             "own_j": own_j, "ttag_js": ttag_js,
              "own_req": own_req, "decl": rng.choice(decls), "plain": plain, "config": config}
         classes.append(c)
         mirror.append(type(f"M{cid}", tuple(mirror[p] for p in parents), {}))
@@ -316,7 +372,7 @@ def gen_history(rng, stream: str = "main", max_ops: int = 40) -> Hist:
                 t = rng.randrange(0, max(1, next_tag[0] + 2))
             t = None if t is None else min(t, N_ENUM - 1)
             if t is not None:
-                inp[FIELD] = tag_value(style, t)
+                inp[FIELD] = tag_value(style, t, rng.randrange(8) if free_spelling else 0)   # key present, whatever the value
             if rng.random() < 0.5:
                 inp["x"] = rng.randrange(0, 9)
             present: list[int] = []
@@ -430,6 +486,12 @@ def do_decode(ns: dict, step: dict):
     obj, meth = step["call"].split(".")
     fn = getattr(ns[obj], meth)
     inp = step["input"]
+    if "arg" in step:                      # full argument + the holder field to look at (two-tagger probe)
+        try:
+            r = fn(step["arg"])
+        except Exception as e:  # noqa: BLE001 - classified below
+            return (unwrap_exc(e),)
+        return ("inst", type(getattr(r, step["pick"])).__name__)
     if step["wrap"] == "v":
         arg = {"v": inp}
     elif step["wrap"] == "vlist":
@@ -660,6 +722,7 @@ def build_fixed(kind: str, style: str, classes_spec: list, sites_spec: list, eve
             spec = dict(classes_spec[ev[1]])
             c = {"id": len(classes), "parents": spec.get("parents", []), "own_tag": spec.get("own_tag"),
                  "ttags": spec.get("ttags", [] if kind == "field" else None), "ttag_bare": spec.get("bare", False),
+                 "own_j": spec.get("own_j", 0), "ttag_js": spec.get("ttag_js"),
                  "own_req": spec.get("own_req", []), "decl": spec.get("decl", "field"), "plain": spec.get("plain", False),
                  "config": spec.get("config")}
             classes.append(c)
@@ -681,13 +744,14 @@ def build_fixed(kind: str, style: str, classes_spec: list, sites_spec: list, eve
             script.append({"op": "exec", "src": site_create_src(s)})
             op_of_step.append(None)
         else:
-            _, skey, t, present = ev
+            _, skey, t, present = ev[:4]
+            j = ev[4] if len(ev) > 4 else 0
             si = site_index[skey]
             s = sites[si]
             inp = {}
             if kind == "field":
                 if t is not None:
-                    inp[FIELD] = tag_value(style, t)
+                    inp[FIELD] = tag_value(style, t, j)
             else:
                 for f in present:
                     inp[f"f{f}"] = f
@@ -722,12 +786,30 @@ def fixed_histories() -> list[Hist]:
     ev = [("define", 0), ("define", 1), ("site", 0), ("decode", ("site", 0), 1, []), ("define", 2), ("site", 1),
           ("decode", ("site", 0), 1, []), ("decode", ("site", 1), 1, [])]
     out.append(build_fixed("field", "str", cl, st, ev))
+    out[-1].meta["tag"] = "nonunique"
     # tagger with list / bare results, config wiring with include_supertypes (dropped by the builder)
     cfgt = {"field": True, "sub": True, "sup": True, "tagger": True}
     cl = [dict(config=cfgt, ttags=[0]), dict(parents=[0], ttags=[1, 2]), dict(parents=[1], ttags=[3], bare=True), dict(parents=[0], ttags=[])]
     ev = [("define", 0), ("decode", ("config", 0), 0, []), ("define", 1), ("decode", ("config", 0), 2, []), ("define", 2),
           ("define", 3), ("decode", ("config", 0), 3, []), ("decode", ("config", 0), 0, []), ("decode", ("config", 0), 1, [])]
     out.append(build_fixed("field", "mixed", cl, [], ev))
+    # tag VALUE spectrum: falsy tags (0 / False / 0.0 / IntEnum 0, '', None as a value), True vs 1, a key that is present
+    # with a falsy value that nobody carries, and the really absent key - through all three wirings
+    sp = "spectrum:0,2,3,1,4"          # ids: 0 -> {0,False,0.0,IE.Z0}  1 -> {'',SE.EMPTY}  2 -> {None}  3 -> {1,True,1.0,IE.Z1}  4 -> {'0'}
+    for decl, js in (("plain", (1, 1, 0, 3)), ("literal", (0, 0, 0, 0))):
+        cl = [dict(config=cfg), dict(parents=[0], own_tag=0, decl=decl, own_j=js[0]), dict(parents=[0], own_tag=1, decl=decl, own_j=js[1]),
+              dict(parents=[1], own_tag=2, decl=decl, own_j=js[2]), dict(parents=[0], own_tag=3, decl=decl, own_j=js[3])]
+        st = [dict(wiring="codec", bases=[0]), dict(wiring="holder", bases=[0]), dict(wiring="holder_list", bases=[1], sup=True)]
+        ev = [("define", 0), ("site", 0), ("site", 1), ("define", 1), ("define", 2)]
+        for skey in (("config", 0), ("site", 0), ("site", 1)):
+            ev += [("decode", skey, 0, [], 0), ("decode", skey, 1, [], 0), ("decode", skey, 2, [], 0), ("decode", skey, None, [])]
+        ev += [("define", 3), ("define", 4), ("site", 2)]
+        for skey in (("config", 0), ("site", 0), ("site", 1), ("site", 2)):
+            ev += [("decode", skey, 2, [], 0), ("decode", skey, 3, [], 0), ("decode", skey, 0, [], 0), ("decode", skey, 4, [], 0),
+                   ("decode", skey, None, [])]
+            if decl == "plain":      # other ==-equal spellings of the same tags in the input
+                ev += [("decode", skey, 0, [], 1), ("decode", skey, 0, [], 2), ("decode", skey, 3, [], 1), ("decode", skey, 3, [], 2)]
+        out.append(build_fixed("field", sp, cl, st, ev))
     # nested class-level dispatchers: own registry per declaring class (and per codec), class-level form never yields itself
     cl = [dict(config=cfg), dict(parents=[0], own_tag=1, config=cfg, decl="plain"), dict(parents=[1], own_tag=2, decl="plain"),
           dict(parents=[0], own_tag=3, decl="plain"), dict(parents=[1], own_tag=4, decl="plain")]
@@ -781,11 +863,71 @@ def check_site_ok(ctx: vlib.Ctx):
 
 
 # ---------------------------------------------------------------------------
+# several discriminated fields with different variant_tagger_fn in ONE holder
+# (region of known finding C12/tagger-fn-name-collision; reported by the C17 engineer)
+# ---------------------------------------------------------------------------
+
+def probe_two_taggers(ctx: vlib.Ctx, n: int):
+    rng = ctx.rng
+    for _ in range(n):
+        k = rng.choice([2, 2, 3])
+        same = rng.random() < 0.25           # all fields share one function: must work
+        src = ""
+        nsub = []
+        for i in range(k):
+            src += f"def tg{i}(cls):\n    return 'p{0 if same else i}_' + cls.__name__\n"
+            src += f"@dataclass\nclass B{i}(DataClassDictMixin):\n    x: int = 0\n"
+            m = rng.randint(1, 3)
+            nsub.append(m)
+            for j in range(m):
+                parent = f"B{i}" if j == 0 or rng.random() < 0.5 else f"B{i}S{j - 1}"
+                src += f"@dataclass\nclass B{i}S{j}({parent}):\n    pass\n"
+        fields = "".join(f"    f{i}: Annotated[B{i}, Discriminator(field='t', include_subtypes=True, variant_tagger_fn=tg{0 if same else i})]\n"
+                         for i in range(k))
+        src += f"@dataclass\nclass HD(DataClassDictMixin):\n{fields}"
+        targets = [rng.randrange(nsub[i]) for i in range(k)]
+        arg = {f"f{i}": {"t": f"p{0 if same else i}_B{i}S{targets[i]}"} for i in range(k)}
+        script = [{"op": "exec", "src": PREAMBLE}, {"op": "exec", "src": src}]
+        sb = Sandbox()
+        try:
+            exec(PREAMBLE, sb.ns)
+            exec(src, sb.ns)
+            # one call decodes all fields; on failure mashumaro names the first bad field
+            bad_i = None
+            obs_all = None
+            try:
+                r = sb.ns["HD"].from_dict(arg)
+                obs_all = [("inst", type(getattr(r, f"f{i}")).__name__) for i in range(k)]
+            except Exception as e:  # noqa: BLE001 - classified below
+                fname = getattr(e, "field_name", None)
+                bad_i = int(fname[1:]) if isinstance(fname, str) and fname[1:].isdigit() else 0
+                bad_obs = (unwrap_exc(e),)
+            for i in range(k):
+                exp = ("inst", f"B{i}S{targets[i]}")
+                if bad_i is not None and i < bad_i:
+                    continue                      # decoded before the failing field: not observable
+                obs = bad_obs if bad_i is not None else obs_all[i]
+                ctx.count(("two-taggers", k, same, i, obs[0]))
+                ctx.hist("wiring", "holder-multi-tagger")
+                if obs != exp:
+                    step = {"op": "decode", "call": "HD.from_dict", "wrap": None, "input": arg[f"f{i}"], "arg": arg, "pick": f"f{i}"}
+                    # the finding: a later field is tagged with the FIRST field's function, so its own tag is unknown there
+                    kf = (not same) and i >= 1 and obs == ("notfound",)
+                    ctx.fail(f"HD.from_dict({arg}).f{i} -> {fmt(obs)}, expected {fmt(exp)} (field {i} of {k}, own variant_tagger_fn)",
+                             {"entry": "history", "script": script + [step], "failing_step": 2, "expected": fmt(exp), "observed": fmt(obs)},
+                             {"kind": "tagger-fn-name-collision" if kf else "field-dispatch", "wiring": "holder-multi-tagger"})
+                if bad_i is not None:
+                    break
+        finally:
+            sb.close()
+
+
+# ---------------------------------------------------------------------------
 # the check
 # ---------------------------------------------------------------------------
 
 CODE_THEOREMS = ["C12_code_variants"]
-THEOREMS = ["C12_registry_invariant", "C12_registry", "C12_missing_tag", "C12_history_independent",
+THEOREMS = ["C12_registry_invariant", "C12_registry", "C12_missing_tag", "C12_present_key_not_missing", "C12_history_independent",
             "C12_eligible_exact", "C12_nofield", "C12_trace_event", "C12_tag_unique_decidable",
             "C12_nonunique_order_dependent", "C12_class_level_self_excluded",
             "C12_nofield_inherited_unpacker_refuted"]
@@ -801,7 +943,10 @@ def run(ctx: vlib.Ctx):
         "random histories (6..40 ops) of 'define class' / 'create site' / 'decode' over real dynamically created "
         "dataclasses (exec of source in a fresh module): 1-2 roots (mixin with Config.discriminator, mixin, plain), "
         "multi-level and diamond hierarchies, non-root classes with their own class-level discriminator (nested dispatchers), "
-        "classes without own tag, tags as str/int/StrEnum/mixed declared as field/ClassVar/plain/Literal/Final, "
+        "classes without own tag, tags as str/int/StrEnum/mixed declared as field/ClassVar/plain/Literal/Final, 40% of the field "
+        "histories draw tags from the value spectrum (0/False/0.0/IntEnum 0, ''/StrEnum '', None as a value, 1/True/1.0, -1, "
+        "'0', 'False', ' ' ...: ==-equal spellings are ONE abstract tag and are mixed between class attribute, tagger result "
+        "and input; a key present with a falsy value is distinct from an absent key), "
         "variant_tagger_fn (bare or list result), sites = Config root (optionally called with dialect=) / Annotated holder "
         "field (direct or List[...]) / BasicDecoder over one class or a Union, include_subtypes x include_supertypes, field "
         "and no-field mode; decodes of present, future (class defined later), unknown and missing tags interleaved with "
@@ -816,6 +961,9 @@ def run(ctx: vlib.Ctx):
         "level discriminator', C12_class_level_self_excluded); such histories still take part in the correspondence",
         "(X2) no-field mode through an Annotated holder over plain (non-mixin) dataclasses is generated only in the "
         "known-finding stream (finding C12/nofield-inherited-unpacker)",
+        "(X3) a holder with several discriminated fields that use DIFFERENT variant_tagger_fn objects is generated only in the "
+        "probe of known finding C12/tagger-fn-name-collision; the model has one tagger per site, which is what the code does "
+        "for codecs, Config roots and single-field holders",
         "inputs are mappings with hashable tags (non-mapping / unhashable inputs belong to C05)",
     ]
     ctx.trusted += [
@@ -911,7 +1059,17 @@ def run(ctx: vlib.Ctx):
             ctx.hist("decode_after_late_definition", str(late))
             first_decode_seen.add(op[1])
         ctx.hist("kind", h.kind)
-        ctx.hist("tag_style", h.style)
+        ctx.hist("tag_style", h.style.split(":")[0])
+        if h.kind == "field":
+            for st in h.script:
+                if st["op"] == "decode":
+                    if FIELD not in st["input"]:
+                        kind_v = "key absent"
+                    else:
+                        v = st["input"][FIELD]
+                        kind_v = ("None" if v is None else "bool" if isinstance(v, bool) else
+                                  "falsy " + type(v).__name__ if not v else type(v).__name__)
+                    ctx.hist("input_tag_value", kind_v)
         ctx.hist("classes_per_history", str(min(len(h.meta["classes"]), 14)))
         ctx.hist("history_length", str(10 * (len(h.ops) // 10)) + "+")
         for (k, what, exp, obs, sig) in fails:
@@ -956,8 +1114,11 @@ def run(ctx: vlib.Ctx):
             ctx.notes.append("model-stale: DiscrKF (finding C12/nofield-inherited-unpacker) disagrees with the implementation: " + detail[:600])
         ctx.correspondence("kf-model-vs-impl", len(kcases), len(bad), detail)
 
+    # ---- several discriminated fields with different tagger functions in one holder
+    probe_two_taggers(ctx, ctx.budget(40, 400))
+
     # ---- remark: without uniqueness the answer depends on the history (not a violation: the property is silent)
-    h = fixed_histories()[3]
+    h = [x for x in fixed_histories() if x.meta.get('tag') == 'nonunique'][0]
     observed, _, _ = run_history(h)
     dec = [fmt(o) for o in observed if o is not None]
     ctx.notes.append(f"non-unique tag: stale registry answers {dec[-2]}, fresh registry {dec[-1]} (same classes, same input)")
